@@ -15,9 +15,13 @@ mod check;
 mod discard;
 mod info;
 mod read;
+#[cfg(qcow2_rs_verif)]
+mod verif;
 mod write;
 use self::alloc::HostCluster;
 pub use self::info::{Qcow2DevParams, Qcow2Info};
+#[cfg(qcow2_rs_verif)]
+pub use self::verif::{VerifSlice, VerifSnapshot};
 
 type L2TableHandle = AsyncRwLock<L2Table>;
 
